@@ -407,6 +407,58 @@ struct Drv {
     // C03: mask(vector) is set exactly where the lane is non-zero
     void tomask() {
         un_pred("nz", "op", [](V a) { return M(a); });
+        // broadcast constructor / assignment from a scalar: every lane is a copy
+        set_label(tn, "broadcast");
+        for (std::size_t i = 0; i < U1.size(); i += (U1.size() / 600 + 1)) {
+            S x = U1[i];
+            opaque(x);
+            A r1{}, r2{};
+            int sg = guarded([&] {
+                r1 = avel::to_array(V(x));
+                V v{};
+                v = x;
+                r2 = avel::to_array(v);
+            });
+            for (unsigned j = 0; j < N; ++j) {
+                emit(Fact("id", K).val("a", x).val("r", sg ? S(0) : r1[j]).signal(sg), tn, int(j), "broadcast_ctor");
+                emit(Fact("id", K).val("a", x).val("r", sg ? S(0) : r2[j]).signal(sg), tn, int(j), "assign_scalar");
+            }
+        }
+        // count / any / all / none of a vector: its non-zero lanes
+        set_label(tn, "v_obs");
+        Rng r(rng.next());
+        for (int rep = 0; rep < 300; ++rep) {
+            A a;
+            bool nzl[N];
+            std::uint64_t pat = r.next() & r.next();
+            if (rep % 7 == 0) pat = ~0ull;
+            if (rep % 7 == 1) pat = 0;
+            for (unsigned j = 0; j < N; ++j) {
+                nzl[j] = (pat >> (j % 64)) & 1u;
+                a[j] = nzl[j] ? U1[(rep * 31 + j * 7) % U1.size()] : S(0);
+                if (nzl[j] && a[j] == 0) a[j] = S(S(1) << (j % (sizeof(S) * 8)));
+            }
+            opaque(a);
+            unsigned cnt = 0;
+            bool an = false, al = false, no = false;
+            int sg = guarded([&] {
+                V v(a);
+                cnt = avel::count(v);
+                an = avel::any(v);
+                al = avel::all(v);
+                no = avel::none(v);
+            });
+            std::string s = "{\"o\":\"v_obs\",\"k\":\"m\",\"n\":" + std::to_string(unsigned(N)) + ",\"a\":[";
+            for (unsigned w = 0; w * 16 < N; ++w) {
+                unsigned v16 = 0;
+                for (unsigned i = 0; i < 16 && w * 16 + i < N; ++i)
+                    if (nzl[w * 16 + i]) v16 |= 1u << i;
+                s += (w ? "," : "") + std::to_string(v16);
+            }
+            s += "],\"count\":" + std::to_string(cnt) + ",\"any\":" + std::to_string(int(an)) + ",\"all\":" + std::to_string(int(al)) +
+                 ",\"none\":" + std::to_string(int(no)) + ",\"sig\":\"" + signame(sg) + "\"}";
+            emit_raw(s, tn, "op");
+        }
     }
 
     //--------------------------------------------------------------------
